@@ -67,6 +67,9 @@ fn part_strategy(max: usize) -> impl Strategy<Value = PartSpec> {
 fn resp_strategy(max: usize) -> impl Strategy<Value = RespSpec> {
     let header = prop_oneof![
         3 => ("[A-Za-z][A-Za-z0-9-]{0,20}", "[!-~]([ -~]{0,40}[!-~])?"),
+        // long values (lengths around 64 .. 8192) and values with multi-byte characters
+        1 => ("[A-Za-z][A-Za-z0-9-]{0,20}", crate::fw::greq::long_text().prop_map(|b| String::from_utf8_lossy(&b.0).trim().to_string()).prop_filter("empty", |s| !s.is_empty())),
+        1 => ("[A-Za-z][A-Za-z0-9-]{0,20}", prop::sample::select(vec!["é", "naïve café", "日本語", "a😀b", "ü: ö", "€ = 1"]).prop_map(|s| s.to_string())),
         1 => prop::sample::select(vec![("Vary", "Origin, Sec-CH-UA"), ("Cache-Control", "no-store, no-cache"), ("X-Frame-Options", "SAMEORIGIN"), ("Location", "/a/b?c=d: e"), ("Set-Cookie", "a=b; Path=/")]).prop_map(|(a, b)| (a.to_string(), b.to_string())),
     ].prop_filter("framing name", |(n, _)| !["content-type", "content-length", "content-range"].contains(&n.to_lowercase().as_str()));
     let parts = prop_oneof![5 => proptest::collection::vec(part_strategy(max), 1..=1), 4 => proptest::collection::vec(part_strategy(max), 2..=6)];
